@@ -141,6 +141,19 @@ bool apply_edit(std::string& d, const Step& st, bool& validity_preserving)
     return true;
   }
   if (op == "ma") { const xmlscan::Attr* a = attr(st.arg(0)); if (!a) return false; d.erase(a->nb, a->ve + 1 - a->nb); return true; }
+  if (op == "mx") {
+    // a point loses its given coordinates (all, the height only, or the position only): the approximate-coordinates
+    // stage has to compute them from the observations - or to find that it cannot
+    std::vector<int> pts; for (size_t t = 0; t < S.tags.size(); t++) if (S.tags[t].start && S.tags[t].name == "point") { bool adj = false, xyz = false; for (auto& a : S.tags[t].attrs) { std::string n = d.substr(a.nb, a.ne - a.nb); if (n == "adj") adj = true; if (n == "x" || n == "z") xyz = true; } if (adj && xyz) pts.push_back((int)t); }
+    if (pts.empty()) return false;
+    const xmlscan::Tag& T = S.tags[pts[(size_t)st.arg(0) % pts.size()]]; long long what = st.arg(1) % 3; bool any = false;
+    for (size_t i = T.attrs.size(); i-- > 0;) {       // from the back, offsets stay valid
+      const xmlscan::Attr& a = T.attrs[i]; std::string n = d.substr(a.nb, a.ne - a.nb);
+      bool drop = (n == "z" && what != 2) || ((n == "x" || n == "y") && what != 1);
+      if (drop) { d.erase(a.nb, a.ve + 1 - a.nb); any = true; }
+    }
+    return any;
+  }
   if (op == "mn") { const xmlscan::Attr* a = attr(st.arg(0)); if (!a) return false; d.insert(a->ne, "x"); return true; }
   if (op == "mv") { const xmlscan::Attr* a = attr(st.arg(0)); if (!a) return false; std::string lit = st.s.empty() ? HOSTILE[st.arg(1) % NHOSTILE] : st.s; d.replace(a->vb, a->ve - a->vb, lit); return true; }
   if (op == "mc") {
@@ -397,6 +410,10 @@ Verdict IoEngine::execute(const Plan& plan, EventLog& log, Stats& st)
   std::vector<size_t> cuts;
   int fired = 0;
   std::string ev_shape;
+  if (plan.get("synth") == "gkf") {             // grammar-derived gama-local network, built from the plan's steps
+    int ns = 0; B = ioev::build_gkf(plan, &ns, &ev_shape); fired += ns; valid = false;
+    st.add("synthetic_gkf_networks"); st.add("synthetic_gkf_steps", ns);
+  }
   if (plan.get("synth") == "g3") {              // grammar-derived g3 model, built from the plan's steps
     int ns = 0; B = ioev::build_g3(plan, &ns, &ev_shape); fired += ns; valid = false;
     st.add("synthetic_g3_models"); st.add("synthetic_g3_steps", ns);
@@ -406,7 +423,7 @@ Verdict IoEngine::execute(const Plan& plan, EventLog& log, Stats& st)
     st.add("event_documents"); st.add("events", ne); st.state("event_contexts", plan.get("alphabet") + "/" + plan.get("ctx"));
   }
   for (const Step& s : plan.steps) {
-    if (is_transport(s.op) || s.op == "ev" || s.op == "gs" || s.op == "gp" || s.op == "go") continue;
+    if (is_transport(s.op) || s.op == "ev" || s.op == "gs" || s.op == "gp" || s.op == "go" || s.op == "kp" || s.op == "ko" || s.op == "kh") continue;
     bool vp = true;
     bool applied = apply_edit(B, s, vp);
     if (applied) { fired++; st.add("fault." + s.op); if (!vp) valid = false; if (s.op == "err") err_end = true; }
@@ -558,6 +575,31 @@ Plan IoEngine::generate(uint64_t seed, uint64_t index, const std::string& tier)
     for (int i = 0; i < nc; i++) { Step s; s.op = "cut"; s.a = {(long long)g.below(4000)}; p.steps.push_back(s); }
     return p;
   }
+  if (g.chance(1, 10)) {
+    // grammar-derived gama-local networks: two or three fixed points, one to three points to be determined (with all,
+    // some or none of their coordinates given, so that the approximate-coordinates stage has to work), observations
+    // of every kind between them; a few of the observations refer to points that were never declared
+    p.set("synth", "gkf"); p.set("name", "synthetic-gkf"); p.set("target", "local");
+    { int xf = -1; p.set("args", g.chance(2, 3) ? std::string("- --xml -") : gen_args(g, xf)); p.seti("xmlfile", xf); }
+    auto stk = [&](const char* op, std::initializer_list<long long> a) { Step s; s.op = op; s.a = a; p.steps.push_back(s); };
+    int nfix = (int)g.range(2, 3), nnew = (int)g.range(1, 3), np = nfix + nnew;
+    bool tidy = g.chance(2, 3);
+    for (int i = 0; i < nfix; i++) stk("kp", {i, tidy ? 0 : (long long)g.below(7), tidy ? 0 : (long long)g.below(4)});
+    for (int i = nfix; i < np; i++) stk("kp", {i, tidy ? 1 : (long long)g.below(7), g.chance(2, 3) ? 1 : (long long)g.below(4)});
+    int ncl = (int)g.range(2, 5);
+    for (int c = 0; c < ncl; c++) {
+      long long from = (long long)g.below(np); int no = (int)g.range(1, 4);
+      for (int i = 0; i < no; i++) {
+        long long to = g.chance(1, 15) ? (long long)g.below(8) : (long long)g.below(np); if (to == from) to = (to + 1) % np;
+        long long third = (long long)g.below(np); if (third == from || third == to) third = (third + 1) % np;
+        stk("ko", {(long long)g.below(6), from, to, third, (long long)g.below(100000)});
+      }
+      if (g.chance(1, 4)) stk("kh", {(long long)g.below(np), (long long)g.below(np), (long long)g.below(1000)});
+    }
+    int nc = g.chance(3, 4) ? 0 : (int)g.range(1, 3);
+    for (int i = 0; i < nc; i++) stk("cut", {(long long)g.below(4000)});
+    return p;
+  }
   if (g.chance(1, 12)) {
     // grammar-derived g3 models: points with every combination of status and coordinates, every observation kind,
     // between declared, coordinate-less and undeclared points
@@ -602,6 +644,12 @@ Plan IoEngine::generate(uint64_t seed, uint64_t index, const std::string& tier)
     int ne = (int)g.below(5);
     static const char* V[] = {"vq", "vs", "vr", "vf", "vc", "vw"};
     for (int i = 0; i < ne; i++) step(V[g.below(6)], {(long long)g.below(5000), (long long)g.below(50), (long long)g.below(50)});
+  } else if (cls < 5 && (target == "local" || target == "gkf")) {
+    // networks that need the approximate-coordinates stage: one to three points without (some of) their coordinates,
+    // sometimes with observations removed as well, so that the stage works with little - or cannot do it
+    int nx = (int)g.range(1, 3), nd = g.chance(1, 2) ? 0 : (int)g.range(1, 3);
+    for (int i = 0; i < nx; i++) step("mx", {(long long)g.below(5000), (long long)g.below(3)});
+    for (int i = 0; i < nd; i++) step("me", {(long long)g.below(5000), (long long)g.below(5000)});
   } else if (cls < 8) {
     // class (ii): grammar-aware invalid edits and byte-level corruption
     int ne = (int)g.range(1, 3);
